@@ -19,6 +19,8 @@
 #   (J8) `n * a` / `a * n` for an int literal `n` and an n-d array `a`                    Py.mulScalarL (float n) a / Py.mulScalarR a (float n)
 #   (J9) `if [not] isinstance(x, np.ndarray):` for a variable typed as an n-d array: decided statically
 #   (J10) `self[key]` inside the `__getitem__` being translated (no array to hand the key to): the method calls ITSELF (recursion on the fuel)
+#   (J11) `if isinstance(x, (int, float, np.integer, np.floating)):` decided statically by the declared type of `x` (number / list)
+#   (J12) `np.array(l, dtype=np.T)` on a list of floats                                  l.map (cast T)
 #   (J7) `self[k]` inside a method of a class whose `__getitem__` is translated for this key type (declared by `call_alias`-free lookup
 #        `<Class>.__getitem__#slices`): here only the all-`:` key on an NDArrayImageStack, i.e. `self.imgs.__getitem__((:, :, :, :))` = (J2)
 # TRUSTED GLUE: listed in design_notes/session4/imgio2.md.
@@ -191,6 +193,43 @@ def _io2_isinstance_stmt(tr, s):
     return tr.block(live) if live else "Py.skip"
 
 
+_IO2_NUMCLS = {"int", "float", "np.integer", "np.floating"}
+
+
+def _io2_isinstance_num(tr, s):
+    """(J11) `if isinstance(x, (int, float, np.integer, np.floating)):` decided statically: true for a variable that is a number (the numeric type
+    parameter), false for a list / array.  A PARAMETER with several typed versions starts as its declared parameter type."""
+    if not (isinstance(s, ast.If) and isinstance(s.test, ast.Call) and ast.unparse(s.test.func) == "isinstance" and len(s.test.args) == 2
+            and not s.test.keywords and isinstance(s.test.args[0], ast.Name) and isinstance(s.test.args[1], ast.Tuple)
+            and {ast.unparse(c) for c in s.test.args[1].elts} == _IO2_NUMCLS):
+        return None
+    n = s.test.args[0].id
+    if n in tr.versions and tr.cur[n] is None and n in tr.spec.params:
+        tr.cur[n] = n
+    t = tr.var_type(n)
+    if t in tr.num:
+        known = True
+    elif isinstance(t, tuple) and t[0] == "List":
+        known = False
+    else:
+        return None
+    live = s.body if known else s.orelse
+    return tr.block(live) if live else "Py.skip"
+
+
+def _io2_np_array(tr, e, want):
+    """(J12) `np.array(l, dtype=np.T)` for a list of floats: every entry converted by `cast T` (the function parameter of `astype`)"""
+    if (isinstance(e, ast.Call) and ast.unparse(e.func) == "np.array" and len(e.args) == 1 and len(e.keywords) == 1 and e.keywords[0].arg == "dtype"
+            and ast.unparse(e.keywords[0].value) in _IO_DTYPES and any(b.startswith("(cast ") for b in tr.spec.fparams)):
+        s0, c, t = tr.tr(e.args[0])
+        if isinstance(t, tuple) and t[0] == "List" and t[1] in tr.num:
+            return s0, f"(({c}).map (cast Py.DType.{_IO_DTYPES[ast.unparse(e.keywords[0].value)]}))", t
+    return None
+
+
+STMT_HOOKS.append(_io2_isinstance_num)
+EXPR_HOOKS.append(_io2_np_array)
+
 EXPR_HOOKS.append(_io2_rec_getitem)
 STMT_HOOKS.append(_io2_isinstance_stmt)
 EXPR_HOOKS.append(_io2_expr)
@@ -280,3 +319,13 @@ spec(lean="gray_getitem", module="AlgoImgIo2", file=_IO_FILE, cls="GrayImageStac
 spec(lean="gray_init", module="AlgoImgIo2", file=_IO_FILE, cls="GrayImageStack", func="__init__", params=["imgs"], num_tparams=["K"],
      vars={"imgs": "NdArr K"}, ret="NdArr K", stmt_subst={"self.imgs = imgs": "return imgs"},
      doc="`swcgeom/images/io.py::GrayImageStack.__init__` (the object is the stack it wraps, here an NDArrayImageStack = its array)")
+
+# `ToImageStack.__init__`, the two instantiations of `resolution: int | float | ArrayLike`: a number (re-bound to the list of three copies) and a
+# list.  Trusted glue: the object's field `self.resolution` is the variable `res`, the result.
+_IO2_INIT = dict(module="AlgoImgIo2", file=_IS_FILE, cls="ToImageStack", func="__init__", params=["resolution"], num_tparams=["K"],
+                 fparams=[_IO_CAST], ret="Unit", out=["res"], stores={"self.resolution": "res"}, subst={"self.resolution": ("v.res", "List K")})
+spec(lean="tostack_init_scalar", vars={"resolution": "K", "resolution#2": "List K", "res": "List K"},
+     doc="`swcgeom/transforms/image_stack.py::ToImageStack.__init__`, `resolution` a number (the field `self.resolution` is the result)", **_IO2_INIT)
+spec(lean="tostack_init_array", vars={"resolution": "List K", "res": "List K"},
+     doc="`swcgeom/transforms/image_stack.py::ToImageStack.__init__`, `resolution` a sequence of numbers (the field `self.resolution` is the result; no "
+         "result = AssertionError)", **_IO2_INIT)
